@@ -69,6 +69,12 @@ CLAIMED["C11"] = dict(
     note="Trusted: rustc's `as isize`; gcc/g++/node executing the generated code; the Dart/Kotlin/nanobind text parsers (Dart, Kotlin and Python bindings are not executed here).",
     ref="DESIGN.md §2 C11")
 
+CLAIMED["C07"] = dict(
+    engine="P", technique="grammar-based program generation (Hypothesis) with static translation validation: parsed Dart/Kotlin native declarations vs a reference C-ABI model",
+    text="Generated programs in the Dart and Kotlin profiles; every @ffi.Native signature, ffi.Struct/Union class, JNA interface function and Structure/Union class (incl. getFieldOrder) is parsed, resolved recursively and compared with the model's C ABI of the function / repr(C) struct: arity, order, width, signedness, float kind, pointer vs by-value, record shapes. Exploration; declarations are validated as text, not executed.",
+    note="Trusted: the two text parsers, the reference ABI model (validated against compiled code by C01), the fixed table of accepted scalar spellings. No Dart/Kotlin toolchain exists in the sandbox.",
+    ref="DESIGN.md §2 C07")
+
 TODO_REASON = "check not built yet in this revision of /verif (planned, see DESIGN.md §2); not claimed until it is silent on the unchanged tree and kills its mutants"
 
 ALL = ["C%02d" % i for i in range(1, 18)]
